@@ -411,6 +411,10 @@ func runParseCase(c *Ctx, expr string, label string) parseOut {
 		c.fail(Failure{Kind: "oracle", Op: "expr " + strRunes(expr), Impl: impl, Note: fmt.Sprintf("SetExpression(%q) did not return normally: %s", expr, o.status)})
 		return o
 	}
+	if o.status == "" && o.lexical && o.code == "UNKNOWN_SYMBOL" && foreignToken(expr) == "" {
+		c.fail(Failure{Kind: "oracle", Op: "expr " + strRunes(expr), Impl: o.implLine(), Note: fmt.Sprintf("%q was rejected with UNKNOWN_SYMBOL although every token of it is a symbol, keyword, word, number or string of the expression language", expr)})
+		return o
+	}
 	if o.status == "" {
 		if bad := foreignToken(expr); bad != "" && !o.lexical {
 			c.fail(Failure{Kind: "oracle", Op: "expr " + strRunes(expr), Impl: o.implLine(), Note: fmt.Sprintf("the token %q is not a symbol of the expression language; the text must be rejected as such (UNKNOWN_SYMBOL), it was %s", bad, o.implLine())})
